@@ -497,6 +497,33 @@ func startServer(toml string) (*labServer, error) {
 
 func (s *labServer) Stop() { s.cancel() }
 
+// startServerAny runs the real server with a configuration that uses one of honeytrap's own
+// listeners (socket, agent): there is no in-memory listener to wait for.
+func startServerAny(toml string) (*labServer, error) {
+	dir := scratchDir()
+	cfgPath := filepath.Join(dir, fmt.Sprintf("config-%d.toml", time.Now().UnixNano()))
+	if err := ioutil.WriteFile(cfgPath, []byte(toml), 0600); err != nil {
+		return nil, err
+	}
+	defer os.Remove(cfgPath)
+	config.Default = config.Config{}
+	cfgOpt, err := server.WithConfig(cfgPath)
+	if err != nil {
+		return nil, err
+	}
+	ddOpt, err := server.WithDataDir(filepath.Join(dir, "data"))
+	if err != nil {
+		return nil, err
+	}
+	ht, err := server.New(cfgOpt, ddOpt, server.WithToken())
+	if err != nil {
+		return nil, err
+	}
+	ctx, cancel := context.WithCancel(context.Background())
+	go ht.Run(ctx)
+	return &labServer{cancel: cancel, ht: ht}, nil
+}
+
 // ---------------------------------------------------------------- helpers
 
 func tcpAddr(ip string, port int) *net.TCPAddr {
